@@ -36,6 +36,8 @@ enum Unit {
     /// dead, so that dead clauses of every form meet live clauses before and
     /// after them in the trace
     Guarded { outer: usize, g: usize, d: usize },
+    /// choice clauses with out-of-line calls between them
+    Calls { inner: usize, outer: usize },
 }
 
 const CHOICE_OPS: [B; 4] = [B::Min, B::Max, B::And, B::Or];
@@ -69,6 +71,11 @@ fn units(tier: Tier) -> Vec<Unit> {
             for d in 0..CHOICE_OPS.len() {
                 v.push(Unit::Guarded { outer, g, d });
             }
+        }
+    }
+    for inner in 0..4 {
+        for outer in 0..4 {
+            v.push(Unit::Calls { inner, outer });
         }
     }
     v
@@ -547,6 +554,17 @@ impl Check for C04 {
                 spec.for_each(n, &prefix, true, &mut |p, _| {
                     check_prog(cx, &mut sub, p, tier, false);
                 });
+            }
+            Unit::Calls { inner, outer } => {
+                let ops = [B::Min, B::Max, B::And, B::Or];
+                for (h, g) in [(U::Sin, U::Exp), (U::Exp, U::Cos), (U::Atan, U::Sin)] {
+                    for third in [false, true] {
+                        for imm in [false, true] {
+                            let p = prog::calls_between_choices(ops[inner], ops[outer], h, g, third, imm);
+                            check_prog(cx, &mut sub, &p, tier, true);
+                        }
+                    }
+                }
             }
             Unit::Chain { k, pat } => {
                 for imm_every in [0usize, 1, 3] {
